@@ -112,9 +112,15 @@ async fn run_client(log: &Log, seed: u64, round: u64) {
     let client = net::make_client(&server, net::PASSWORD, PaddingFactory::default(), pool);
     let target = net::start_target("127.0.0.1:0", TargetMode::Echo).await;
     let mut seen: Vec<Arc<Session>> = Vec::new();
-    // sequential requests: each finishes before the next starts
-    let n = r.range(3, 6);
+    // sequential requests: each finishes before the next starts; now and then a session dies for an external reason
+    let n = r.range(4, 9);
     for req in 1..=n {
+        if req > 2 && r.chance(1, 3) {
+            let live: Vec<&Arc<Session>> = seen.iter().filter(|s| !s.is_closed()).collect();
+            if !live.is_empty() { let victim = (*r.pick(&live)).clone(); ev!(log, "ckill", s: victim.id()); let _ = victim.close().await; tokio::time::sleep(Duration::from_millis(10)).await; }
+        }
+        let closed: Vec<u64> = seen.iter().filter(|s| s.is_closed()).map(|s| s.id()).collect();
+        ev!(log, "cstate", closed: closed);
         ev!(log, "creq", r: req);
         match client.create_proxy_stream((target.addr.ip().to_string(), target.addr.port())).await {
             Ok((stream, sess)) => {
@@ -132,8 +138,12 @@ async fn run_client(log: &Log, seed: u64, round: u64) {
     // freshly dialled session and one on a reused session
     let mut lived = Vec::new();
     for lr in [98u64, 99] {
+        let closed: Vec<u64> = seen.iter().filter(|s| s.is_closed()).map(|s| s.id()).collect();
+        ev!(log, "cstate", closed: closed);
         if let Ok((stream, sess)) = client.create_proxy_stream((target.addr.ip().to_string(), target.addr.port())).await {
-            if !seen.iter().any(|s| s.id() == sess.id()) { seen.push(sess.clone()); }
+            let new = !seen.iter().any(|s| s.id() == sess.id());
+            if new { seen.push(sess.clone()); }
+            ev!(log, "cserved", r: lr, s: sess.id(), new: new, sclosed: sess.is_closed());
             lived.push((lr, stream, sess));
         }
     }
@@ -173,7 +183,7 @@ pub fn run(args: &Args, log: &Log) -> Result<(), String> {
     }
     {
         let rt = net::rt();
-        rt.block_on(async { for round in 0..(if thorough { 12 } else { 2 }) { run_client(log, args.seed + round, round).await; } });
+        rt.block_on(async { for round in 0..(if thorough { 20 } else { 4 }) { run_client(log, args.seed + round, round).await; } });
         rt.shutdown_timeout(Duration::from_millis(200));
     }
     let _ = std::panic::take_hook();
